@@ -194,8 +194,24 @@ def omega(draw, L):
 @st.composite
 def starts(draw, N, L, maxK=16):
     hi = N - L
-    pat = draw(st.sampled_from(["random", "random", "equal", "extremes", "descending", "even"]))
+    pat = draw(st.sampled_from(["random", "random", "equal", "extremes", "descending", "even", "progression", "almost_progression",
+                                "almost_progression"]))
     K = draw(st.integers(1, maxK))
+    if pat in ("progression", "almost_progression"):
+        # an arithmetic progression s0 + j*h (what the schedulers emit), and progressions with interior elements moved or
+        # swapped while first hop, first and last element stay as they are
+        K = max(K, 2)
+        h = draw(st.integers(0, max(0, hi // (K - 1))))
+        s0 = draw(st.integers(0, hi - h * (K - 1)))
+        v = [s0 + j * h for j in range(K)]
+        if pat == "almost_progression" and K >= 4:
+            for _ in range(draw(st.integers(1, 2))):
+                j = draw(st.integers(2, K - 2))
+                v[j] = draw(st.integers(0, hi))
+            if draw(st.booleans()):
+                i, j = draw(st.integers(2, K - 2)), draw(st.integers(2, K - 2))
+                v[i], v[j] = v[j], v[i]
+        return v
     if pat == "random":
         return draw(st.lists(st.integers(0, hi), min_size=K, max_size=K))
     if pat == "equal":
